@@ -117,6 +117,24 @@ func runC08() {
 			}
 		}
 	}
+	// BOTH copies transformed one after the other by the same opcode (x DUP op SWAP op, and with the twin parked on the
+	// alt stack meanwhile): what decoding or transforming the first copy leaves behind must not reach the second
+	for pi, pv := range provenances {
+		for ti, tf := range transforms {
+			if !c.Thorough() && (pi+ti+int(c.Seed))%3 != 0 && pi != 0 {
+				continue
+			}
+			x := twinValues[(pi+2*ti)%len(twinValues)]
+			fl := uint32(0)
+			if (pi+ti)%2 == 0 {
+				fl = interpgen.FGenesis
+			}
+			emit((&interpgen.Program{Unlock: []byte{}, Lock: cat(pv.code(x), tf.code, []byte{0x7c}, tf.code, []byte{0x74, 0x75, 0x51}), Flags: fl, Kind: "both-twins/" + pv.name + "/" + tf.name}).Fix())
+			if pi == 0 {
+				emit((&interpgen.Program{Unlock: []byte{}, Lock: cat(interpgen.Push(x), []byte{0x76, 0x6b}, tf.code, []byte{0x75, 0x6c}, tf.code, []byte{0x74, 0x75, 0x51}), Flags: fl, Kind: "both-twins/alt/" + tf.name}).Fix())
+			}
+		}
+	}
 	// chains of two or three transformations on shared data
 	nChains := 300
 	if c.Thorough() {
